@@ -204,6 +204,23 @@ def run(ctx: Ctx) -> None:
             ok = any(wrapper in res.callees(m, a.value).funcs and a.value.args and isinstance(a.value.args[0], ast.Call) and any(f.cls is conn and f.name == phase for f in res.callees(m, a.value.args[0]).funcs) for a in aw)
             direct = [a for a in aw if any(f.cls is conn and f.name == phase for f in res.callees(m, a.value).funcs)]
             ctx.ob("C19.R3", m, f"{phase} runs the connection phase through the clearing wrapper", ok and not direct, "a failed phase would leave its dead connection installed")
+            # what the phase does after the wrapper returned is outside the wrapper's clearing: nothing there raises by
+            # itself (a look-up that fails for some address, say), or the caller sees a failed attempt while the
+            # connection stays installed
+            from ..totality import risky
+
+            gm = cfg_of(ctx, m)
+            wn = [n for n in gm.reachable() if any(wrapper in res.callees(m, c).funcs for c in node_calls(n))]
+            tail: list[ast.AST] = []
+            for n_ in wn:
+                for l_, s_ in n_.succ:
+                    if l_ == "exc":
+                        continue
+                    for x_ in walk(gm, {}, lambda n: None, start=s_):
+                        if x_.ast is not None and x_.kind in ("stmt", "cond") and x_ not in wn and x_.ast not in tail:
+                            tail.append(x_.ast)
+            rk_t = [r for r in risky(ctx, res, m, tail) if "self._connection may be None" not in r]
+            ctx.ob("C19.R3", m, f"{phase}: nothing after the guarded phase can raise by itself", not rk_t, f"{rk_t[:3]}: the attempt fails for the caller but its connection stays installed - every later start_connection() answers 'already connected'")
     hook = client.methods.get("_on_stop")
     ctx.require(hook is not None, "APIClient._on_stop missing")
     gh = cfg_of(ctx, hook)
